@@ -19,7 +19,9 @@ CONSTANTS Names,        \* identifiers usable as name segments, with case varian
           Imports,      \* importable fully qualified names (sequences of segments)
           Sites,        \* referencing sites: [id, kind \in {"class", "function", "const"}, typepos \in BOOLEAN]
           MaxImports, MaxRefs, MaxSections,
-          Forms         \* name forms to explore, subset of {"unq", "qual", "fq", "rel"}
+          Forms,        \* name forms to explore, subset of {"unq", "qual", "fq", "rel"}
+          Mixed         \* BOOLEAN: imports may also stand between (after) references and declarations of their section -
+                        \* an import is in effect from its own position on; what was resolved before it stays as it was
 
 VARIABLES ns, alias, prog, expect, nimp, nref, nsec, phase, done
 vars == <<ns, alias, prog, expect, nimp, nref, nsec, phase, done>>
@@ -69,7 +71,7 @@ Namespace == /\ phase = "ns" /\ ~done /\ nsec < MaxSections
              /\ nsec' = nsec + 1 /\ nimp' = 0 /\ nref' = 0 /\ phase' = "use"
              /\ UNCHANGED <<expect, done>>
 
-Use == /\ phase = "use" /\ ~done /\ nimp < MaxImports
+Use == /\ (phase = "use" \/ (Mixed /\ phase = "ref")) /\ ~done /\ nimp < MaxImports
        /\ \E k \in {"class", "function", "const"}, fqn \in Imports, al \in ({""} \cup Names) :
             LET a == IF al = "" THEN fqn[Len(fqn)] ELSE al IN
             /\ alias' = [alias EXCEPT ![k] = Append(@, <<Key(k, a), fqn>>)]
@@ -78,7 +80,7 @@ Use == /\ phase = "use" /\ ~done /\ nimp < MaxImports
        /\ UNCHANGED <<ns, expect, nref, nsec, phase, done>>
 
 \* "use P\{A, function Q\b as f};" - a group use, items may carry their own kind
-GroupUse == /\ phase = "use" /\ ~done /\ nimp + 2 <= MaxImports
+GroupUse == /\ (phase = "use" \/ (Mixed /\ phase = "ref")) /\ ~done /\ nimp + 2 <= MaxImports
             /\ \E k1 \in {"class", "function", "const"}, k2 \in {"class", "function", "const"}, a1 \in {"A", "a"}, al2 \in {"", "X"} :
                  LET f1 == <<"P", a1>>
                      f2 == <<"P", "Q", "B">>
